@@ -94,6 +94,19 @@ def mbox_msg_path(mbox: MH, x: int | str | None = None) -> Path:
 
 ####################################################################
 #
+def mbox_name_is_inside(name: str) -> bool:
+    """
+    Mailbox names are paths relative to the user's mail directory. Returns
+    False for a name that would lead somewhere else: an absolute path, or one
+    with a `..` component.
+    """
+    return not (
+        name.startswith("/") or ".." in name.split("/") or "\0" in name
+    )
+
+
+####################################################################
+#
 def intersect(a: IMAPClientCommand, b: IMAPClientCommand) -> bool:
     """
     A helper function that determines if the msg_set_as_set for two
@@ -2924,6 +2937,11 @@ class Mailbox:
         # You can not create 'INBOX' nor, because of MH rules, create a mailbox
         # that is just the digits 0-9.
         #
+        # Like `IMAPUserServer.get_mailbox()`: one leading "/" is ignored.
+        #
+        name = name[1:] if name and name[0] == "/" else name
+        if not mbox_name_is_inside(name):
+            raise InvalidMailbox(f"Invalid mailbox name: '{name}'")
         if name.lower() == "inbox":
             raise InvalidMailbox("Can not create a mailbox named 'inbox'")
         if name.isdigit():
@@ -3154,6 +3172,13 @@ class Mailbox:
         - `server`: the user server object
         """
         mbox = await server.get_mailbox(old_name)
+
+        # Like `IMAPUserServer.get_mailbox()`: one leading "/" is ignored.
+        #
+        new_name = new_name[1:] if new_name and new_name[0] == "/" else new_name
+        if not new_name.strip() or not mbox_name_is_inside(new_name):
+            raise InvalidMailbox(f"Invalid mailbox name: '{new_name}'")
+
         # The mailbox we are moving to must not exist.
         #
         try:
